@@ -63,4 +63,52 @@ def run_all ():
   f = _fn("def f(self):\n  self._t.append(1)\n  self._t = []\n  del self._t[0]\n  self._t[1] = 2\n  other._t.sort()\n")
   kinds = sorted(k for k, s in q.mutations_of_attr(f, '_t'))
   expect('mutation finder', kinds == ['call:append', 'call:sort', 'delitem', 'rebind', 'setitem'])
+  # ---- normaliser (helper inlining, temporaries, constants) against an explicit vocabulary ----------------------
+  from . import norm
+  def normed (src, inv):
+    t = ast.parse(src)
+    saved = norm._INV; norm._INV = {'m': inv}
+    try: t = norm.normalize_module(t, 'm', {})
+    finally: norm._INV = saved
+    return ast.unparse(t)
+  inv = {'K.f': ['self', 'x'], '<module>': [], '<class K>': []}
+  out = normed("class K:\n  def f(self, x):\n    if self._ok(x): return 1\n    return 2\n  def _ok(self, v):\n    if v is None: return False\n    return v > 3\n", inv)
+  expect('norm inline guard-clause helper', '_ok' not in out and 'x is None' in out and 'x > 3' in out)
+  out = normed("class K:\n  def f(self, x):\n    big = x > 3\n    if big: return 1\n    return 2\n", inv)
+  expect('norm expands new temporary', 'big' not in out and 'if x > 3' in out)
+  out = normed("class K:\n  def f(self, x):\n    big = x > 3\n    x = 0\n    if big: return 1\n    return 2\n", inv)
+  expect('norm keeps temporary when an input is re-assigned in between', 'if big' in out)
+  out = normed("LIMIT = 8\nclass K:\n  def f(self, x):\n    return x < LIMIT\n", inv)
+  expect('norm inlines new literal constant', 'x < 8' in out)
+  out = normed("class K:\n  def f(self, x):\n    for n in ('a', 'b'):\n      if getattr(self, n) is None: continue\n      if getattr(self, n) != getattr(x, n): return False\n    return True\n", inv)
+  expect('norm unrolls name loops', 'self.a != x.a' in out and 'self.b != x.b' in out and 'getattr' not in out)
+  inv2 = {'K.f': ['self', 'x', 'big'], '<module>': [], '<class K>': []}
+  out = normed("class K:\n  def f(self, x):\n    big = x > 3\n    if big: return 1\n    return 2\n", inv2)
+  expect('norm leaves reference locals alone', 'if big' in out)
+  # ---- evaluation along paths ----------------------------------------------------------------------------------
+  class _M(object):
+    name = 'm'; short = 'm'
+    def lookup (self, n, _d=0): return None
+  class _R(object):
+    def try_const (self, module, e, cls=None, default=None):
+      try: return ast.literal_eval(e)
+      except Exception: return default
+    def const (self, *a, **k): raise Exception()
+  f = _fn("def f(m):\n  p = m.out\n  if p == 65535: p = None\n  return g(p)\n")
+  g = CFG(f); call = _node(g, 'g(p)')
+  try:
+    v1 = q.values_at(_R(), None, g, q.Env({'m.out': 7}), call, ast.parse('p', mode='eval').body, None)
+    v2 = q.values_at(_R(), None, g, q.Env({'m.out': 65535}), call, ast.parse('p', mode='eval').body, None)
+  except Exception: v1 = v2 = None
+  expect('values_at constant propagation', v1 == {7} and v2 == {None})
+  f = _fn("def f(parts):\n  out = []\n  for p in parts:\n    out.extend(p.body)\n  return h(out)\n")
+  g = CFG(f)
+  try: v = q.values_at(_R(), None, g, q.Env({'parts': [q.Rec(body=[1, 2]), q.Rec(body=[3])]}), _node(g, 'h(out)'), ast.parse('out', mode='eval').body, None)
+  except Exception: v = None
+  expect('values_at list growth over sample records', v == {repr([1, 2, 3])})
+  # ---- reaching definitions / provenance ---------------------------------------------------------------------------
+  f = _fn("def f(self):\n  r = None\n  for i, v in enumerate(self.b):\n    if v is None:\n      r = i\n      break\n  if r is not None:\n    self.b[r] = 1\n")
+  g = CFG(f)
+  pv = q.provenance(g, _node(g, 'self.b[r] = 1'), 'r')
+  expect('provenance through copy', sorted(k for d, k, v in pv) == ['assign', 'for'])
   return bad
